@@ -124,6 +124,21 @@ pub fn run(ctx: &Ctx) -> i32 {
             check_case(ctx, st, &tcs, Settings::new(flags[i % flags.len()]));
         });
     }
+    // hundreds to thousands of short test cases with a class option (chunked / parallel conversion would show here)
+    {
+        let sizes = [511usize, 512, 513, 521, 777, 1024, 1031, 2049];
+        let letters: Vec<String> = "abcdefghij0123 -".chars().map(|c| c.to_string()).collect();
+        par_for(&ctx.run, sizes.len() * 3, |i, st| {
+            let mut rng = Rng::new(seed, 0x32_0000 + i as u64);
+            let k = sizes[i % sizes.len()];
+            let mut tcs: Vec<String> = (0..k).map(|_| (0..1 + rng.below(3)).map(|_| rng.pick(&letters).clone()).collect()).collect();
+            tcs.push("zzzzzzz".to_string());
+            tcs.push("12345678".to_string());
+            let cls = [WORD, DIGIT | NSPACE, WORD | SPACE | NDIGIT][i / sizes.len()];
+            st.count("hundreds_of_test_cases");
+            check_case(ctx, st, &tcs, Settings::new(cls));
+        });
+    }
     // random
     let n = if ctx.thorough { 150_000 } else { 5_000 };
     let names = ["classes", "ws", "case", "graph", "mixed", "astral", "meta", "clusters", "tokens"];
